@@ -222,10 +222,12 @@ def effNs (dflt : Str) (row : Row) (c : Call) : R Str :=
     | .none, .path (.cls _ _ ns) => nsFromNamespace dflt (optStrArg ns)
     | n, _ => nsFromNamespace dflt n
   | .nsOrPath a =>
+    -- `namespace is None and isinstance(NewInstance, CIMInstance) and getattr(NewInstance.path, 'namespace', None)
+    --  is not None`: anything but an instance with a path that has a namespace leaves `namespace` alone
     match c.arg "namespace" with
-    | .none => do
-      match (← pathAttrOf c a) with
-      | .path p => nsFromNamespace dflt (optStrArg (Path.ns p))
+    | .none =>
+      match c.arg ((a.splitOn ".").headD "") with
+      | .inst (.mk _ (some p) _ _) => nsFromNamespace dflt (optStrArg (Path.ns p))
       | _ => nsFromNamespace dflt .none
     | n => nsFromNamespace dflt n
   | .object a =>
